@@ -14,6 +14,7 @@
 #include <unistd.h>
 #include <errno.h>
 #include <signal.h>
+#include <sys/mman.h>
 using namespace evb;
 
 extern "C" int LLVMFuzzerInitialize(int *, char ***) { sim_mem_install(); ref_region_init(); signal(SIGPIPE, SIG_IGN); return 0; }
@@ -25,7 +26,7 @@ const int ERRS[] = {EINTR, EAGAIN, ECONNRESET, EPIPE};
 
 struct Io {
   World &w; Exec &ex; Src &s; int fd, peer; IoLog log; std::string inflight; bool peer_shut = false;
-  int n_short = 0, n_failed = 0, n_nontrivial = 0, n_sendfile = 0; int memfd = -1; std::string filedata;
+  int n_short = 0, n_failed = 0, n_nontrivial = 0, n_sendfile = 0; int memfd = -1; std::string filedata; int n_fileseg = 0;
   Io(World &ww, Exec &e, Src &ss) : w(ww), ex(e), s(ss) {}
 
   std::string drain_peer() { std::string got; char tmp[65536]; for (;;) { ssize_t r = read(peer, tmp, sizeof tmp); if (r <= 0) break; got.append(tmp, (size_t)r); } return got; }
@@ -39,7 +40,7 @@ struct Io {
   // one evbuffer_write(_atmost) call under the currently queued script; returns true if a syscall was issued
   void write_call(int bi, bool atmost, long howmuch, const char *what, bool expect_fail) {
     BufW &b = w.B[bi]; size_t L = b.m.len(); bool multi = ex.geo[bi].bounds.size() >= 1;
-    bool front_is_sendfile = b.eb->first && (b.eb->first->flags & EVBUFFER_SENDFILE);
+    bool front_is_sendfile = b.eb->first && (b.eb->first->flags & EVBUFFER_SENDFILE); size_t front_off = b.eb->first ? b.eb->first->off : 0;
     log.recs.clear();
     int rc = atmost ? evbuffer_write_atmost(b.eb, fd, howmuch) : evbuffer_write(b.eb, fd);
     sim_script_clear();
@@ -50,6 +51,8 @@ struct Io {
     if (b.m.fz_start) { CHECK(rc == -1 && nsys == 0, "C16/write-frozen", "write on a front-frozen buffer returned %d after %zu syscalls", rc, nsys); return; }
     if (nsys == 0) { CHECK(eff == 0, "C16/write-no-syscall", "write of %zu bytes made no system call (returned %d)", eff, rc);
       CHECK(rc == 0 || rc == -1, "C16/write-ret", "write of nothing returned %d", rc); return; }
+    if (rec.kind == SYS_SENDFILE && (size_t)rec.requested > eff && (size_t)rec.requested <= front_off)
+      VERIF_FAIL("C16/sendfile-ignores-howmuch", "evbuffer_write_atmost(howmuch %ld) asked sendfile() for the whole %ld-byte segment chain (returned %d)", howmuch, rec.requested, rc);
     CHECK((size_t)rec.requested <= eff && rec.requested > 0, "C16/write-asked-too-much", "write asked the kernel for %ld bytes, allowed %zu (howmuch %ld, buffered %zu)", rec.requested, eff, howmuch, L);
     if (rec.kind == SYS_SENDFILE) { n_sendfile++;
       // code-derived corner: a retriable sendfile error (EAGAIN/EINTR) is reported as 0, not -1
@@ -66,6 +69,8 @@ struct Io {
     int bi = s.below(NB); bool atmost = s.flag(); SizeSpec hs = draw_size(s); uint8_t fm = s.byte(); uint32_t fin = s.below(3); SizeSpec ks = draw_size(s);
     BufW &b = w.B[bi]; long howmuch = -1;
     if (atmost) { howmuch = (hs.mode == 0 && hs.v == 0 && s.flag()) ? -1 : (long)resolve(hs, ex.geo[bi], b.m.len()); }
+    if (atmost && howmuch >= 0 && b.eb->first && (b.eb->first->flags & EVBUFFER_SENDFILE) && (size_t)howmuch < b.eb->first->off && verif_known("C16/sendfile-ignores-howmuch")) {
+      verif_known_skipped("C16/sendfile-ignores-howmuch"); howmuch = -1; }   // the sendfile path ignores howmuch: stay out of that sub-domain
     for (int i = 0; i < 5; i++) if (fm & (1u << i)) {
       if (i < 4) script_all(true, ACT_FAIL, ERRS[i]); else script_all(true, ACT_SHORT, 0);
       write_call(bi, atmost, howmuch, i < 4 ? strerror(ERRS[i]) : "would block", true);
@@ -75,6 +80,31 @@ struct Io {
     size_t k = 0; if (fin == 2) { k = resolve(ks, ex.geo[bi], b.m.len()); if (k == 0) k = 1; script_all(true, ACT_SHORT, (long)k); }
     write_call(bi, atmost, howmuch, fin == 2 ? "short" : "pass", false);
     ex.post("write", 1u << bi);
+  }
+
+  // Put a file segment into a buffer.  The file is a memfd of FILE_LEN bytes; the segment always ends before the file's
+  // EOF, offsets/lengths sit around page boundaries.  Buffers with EVBUFFER_FLAG_DRAINS_TO_FD take sendfile-capable
+  // segments (-> sendfile chains); other buffers only take EVBUF_FS_DISABLE_SENDFILE segments (header: reading bytes
+  // from a buffer holding a sendfile-capable segment is undefined), which are mmap'ed or (DISABLE_MMAP) read into memory.
+  static const size_t FILE_LEN = 5 * 4096 + 321;
+  void op_fileseg() {
+    int bi = s.below(NB); uint32_t so = s.below(8), sl = s.below(8), fl = s.below(4), sub = s.below(4); BufW &b = w.B[bi];
+    if (b.m.len() > 40000) return;
+    if (memfd < 0) { memfd = memfd_create("c16", 0); if (memfd < 0) abort(); filedata = bytebuf::payload(99, FILE_LEN);
+      if (pwrite(memfd, filedata.data(), FILE_LEN, 0) != (ssize_t)FILE_LEN) abort(); }
+    static const size_t OFFS[] = {0, 1, 4095, 4096, 4097, 8191, 8192, 12288}, LENS[] = {1, 2, 100, 4095, 4096, 4097, 8192, 8193};
+    size_t off = OFFS[so], len = LENS[sl]; if (off + len >= FILE_LEN) len = FILE_LEN - off - 7;
+    unsigned flags = EVBUF_FS_CLOSE_ON_FREE | ((fl & 1) ? EVBUF_FS_DISABLE_MMAP : 0) | ((fl & 2) || !b.fd_only ? EVBUF_FS_DISABLE_SENDFILE : 0);
+    int fd2 = dup(memfd); if (fd2 < 0) abort();
+    struct evbuffer_file_segment *seg = evbuffer_file_segment_new(fd2, (ev_off_t)off, (ev_off_t)len, flags);
+    CHECK(seg != nullptr, "C16/fileseg-new", "evbuffer_file_segment_new(off %zu, len %zu, flags %u) failed", off, len, flags);
+    size_t o2 = sub == 0 ? 0 : sub == 1 ? 1 % len : len / 2; long l2 = (sub == 3) ? (long)((len - o2 + 1) / 2) : -1; size_t eff = l2 < 0 ? len - o2 : (size_t)l2;
+    int rc = evbuffer_add_file_segment(b.eb, seg, (ev_off_t)o2, (ev_off_t)l2);
+    bool sf = b.eb->last && (b.eb->last->flags & EVBUFFER_SENDFILE);
+    TR("  add_file_segment(buf%d%s, file[%zu..+%zu] flags %u, sub-range %zu..%ld) -> %d%s", bi, b.fd_only ? " DRAINS_TO_FD" : "", off, len, flags, o2, l2, rc, sf ? " (sendfile chain)" : "");
+    CHECK(rc == (b.m.fz_end ? -1 : 0), "C16/fileseg-add-ret", "evbuffer_add_file_segment returned %d, end frozen=%d", rc, b.m.fz_end);
+    if (rc == 0) { evbuffer_file_segment_free(seg); m_append(bi, filedata.substr(off + o2, eff)); n_fileseg++; }   // a failed add has consumed the caller's reference
+    ex.post("add_file_segment", 1u << bi);
   }
 
   void read_call(int bi, int howmuch, const char *what, bool expect_fail) {
@@ -128,6 +158,8 @@ extern "C" int LLVMFuzzerTestOneInput(const uint8_t *data, size_t size) {
   int64_t live0 = sim_mem_live_blocks;
   {
     World w; world_init(w, "C16");
+    unsigned fdmask = s.below(8);   // which buffers carry EVBUFFER_FLAG_DRAINS_TO_FD
+    for (int i = 0; i < NB; i++) if (fdmask & (1u << i)) { evbuffer_set_flags(w.B[i].eb, EVBUFFER_FLAG_DRAINS_TO_FD); w.B[i].fd_only = true; }
     Exec ex(w); ex.init();
     int sv[2]; if (socketpair(AF_UNIX, SOCK_STREAM | SOCK_NONBLOCK, 0, sv) != 0) abort();
     Io io(w, ex, s); io.fd = sv[0]; io.peer = sv[1]; io.log.fd = sv[0]; sim_set_io_hook(io_hook, &io.log);
@@ -136,14 +168,14 @@ extern "C" int LLVMFuzzerTestOneInput(const uint8_t *data, size_t size) {
       if (k == 0) break;
       if (k <= 3) { std::vector<Op> ops = decode_ops(s, 4, MIX_SHAPE, sizeof MIX_SHAPE); for (const Op &o : ops) ex.run(o); }
       else if (k <= 5) io.op_write();
-      else if (k == 6) io.op_read();
+      else if (k == 6) { if (s.below(3) == 0) io.op_fileseg(); else io.op_read(); }
       else { if (s.below(4) == 0 && !io.peer_shut) { shutdown(io.peer, SHUT_WR); io.peer_shut = true; TR("  (peer shuts down its sending side)"); } else io.op_read(); }
     }
     ex.post("end");
     sim_set_io_hook(nullptr, nullptr);
-    world_free(w); close(sv[0]); close(sv[1]);
+    world_free(w); close(sv[0]); close(sv[1]); if (io.memfd >= 0) close(io.memfd);
     CHECK(w.refs_cleaned == w.refs_added, "C16/ref-cleanup-count", "%d references added, %d cleanup calls", w.refs_added, w.refs_cleaned);
-    if (io.n_short) verif_class("short_result"); if (io.n_failed) verif_class("failed_result"); if (w.saw_multi_chain) verif_class("multi_chain"); if (io.n_sendfile) verif_class("sendfile");
+    if (io.n_short) verif_class("short_result"); if (io.n_failed) verif_class("failed_result"); if (w.saw_multi_chain) verif_class("multi_chain"); if (io.n_sendfile) verif_class("sendfile"); if (io.n_fileseg) verif_class("file_segment");
     verif_class_n("io_faults", (uint64_t)(io.n_short + io.n_failed));
     CHECK(sim_mem_live_blocks == live0, "C16/leak", "library allocations outstanding: %lld", (long long)(sim_mem_live_blocks - live0));
     verif_case_end(io.n_nontrivial >= 1, s.h);
